@@ -3695,7 +3695,12 @@ func (d *bincDecDriverBytes) decLen() int {
 	if d.vs > 3 {
 		return int(d.vs - 4)
 	}
-	return int(d.decLenNumber())
+	v := d.decLenNumber()
+	if v > math.MaxInt {
+
+		halt.errorf("length does not fit an int: %v", v)
+	}
+	return int(v)
 }
 
 func (d *bincDecDriverBytes) decLenNumber() (v uint64) {
@@ -7780,7 +7785,12 @@ func (d *bincDecDriverIO) decLen() int {
 	if d.vs > 3 {
 		return int(d.vs - 4)
 	}
-	return int(d.decLenNumber())
+	v := d.decLenNumber()
+	if v > math.MaxInt {
+
+		halt.errorf("length does not fit an int: %v", v)
+	}
+	return int(v)
 }
 
 func (d *bincDecDriverIO) decLenNumber() (v uint64) {
